@@ -601,7 +601,10 @@ func (t *tokenAwareHostPolicy) Pick(qry ExecutableQuery) NextHost {
 	var replicas []*HostInfo
 	if ht == nil {
 		host, _ := meta.tokenRing.GetHostForToken(token)
-		replicas = []*HostInfo{host}
+		if host != nil {
+			// the ring is empty when the last host has been removed
+			replicas = []*HostInfo{host}
+		}
 	} else {
 		replicas = ht.hosts
 		if t.shuffleReplicas {
